@@ -50,13 +50,16 @@ theorem singleton_beq (c d : Char) : ([c] == [d]) = (c == d) := by
 end TieH
 
 /-- a line that is not the wanted one: the section flag is updated (`[pycalver]`, `[bumpver]`,
-    `[tool.bumpver]` open the section, any other `[...]` line closes it) and the scan goes on -/
+    `[tool.bumpver]` open the section, any other `[...]` line closes it) and the scan goes on.
+    The three header tests are atoms: the source may write them as an `elif` chain, with `or`, or as
+    `line.strip() in ("[pycalver]", "[bumpver]", "[tool.bumpver]")` (`List.elem`). -/
 macro "cvdp_scan_on" ih:ident line:ident : tactic => `(tactic|
   (simp only [isConfigHeader, isAnyHeader]
    by_cases c1 : (strip $line:ident == "[pycalver]".toList) = true <;>
    by_cases c2 : (strip $line:ident == "[bumpver]".toList) = true <;>
    by_cases c3 : (strip $line:ident == "[tool.bumpver]".toList) = true <;>
-   simp only [c1, c2, c3, Bool.true_or, Bool.or_true, Bool.or_false, Bool.or_self, Bool.false_eq_true, if_true, if_false, $ih:ident]
+   simp only [List.elem_cons, List.elem_nil, c1, c2, c3, Bool.true_or, Bool.or_true, Bool.or_false, Bool.or_self,
+     Bool.false_eq_true, if_true, if_false, $ih:ident]
    rcases $line:ident with _ | ⟨c, t⟩
    · simp only [List.isEmpty_nil, Bool.not_true, Bool.false_eq_true, if_false, $ih:ident]
    · simp only [List.isEmpty_cons, Bool.not_false, if_true, strIdx_zero_cons, strIdx_neg1_cons]
